@@ -150,7 +150,7 @@ pub fn check_hide(case: &HideCase, st: &mut Stats) -> Result<(), String> {
 
 /// A hide-only sheet: display:none or the zero-height idiom on generated / derived selectors.
 fn hide_sheet(ids: usize) -> BoxedStrategy<Sheet> {
-    let prop = prop_oneof![3 => Just(Prop::DisplayNone), 1 => any::<bool>().prop_map(Prop::ZeroHeightHidden)];
+    let prop = prop_oneof![3 => Just(Prop::DisplayNone), 1 => any::<bool>().prop_map(Prop::ZeroHeightHidden), 1 => any::<bool>().prop_map(Prop::ZeroHeightMixed)];
     prop::collection::vec((prop::collection::vec(cssgen::complex(ids), 1..=2), prop, prop::bool::weighted(0.2)), 0..=3)
         .prop_map(|rules| rules.into_iter().map(|(selectors, prop, important)| Rule { selectors, decls: vec![Decl { prop, important }] }).collect())
         .boxed()
@@ -196,7 +196,12 @@ fn hide_case() -> BoxedStrategy<HideCase> {
                 let c = inl[i % inl.len()];
                 i += 1;
                 if c % 9 == 0 {
-                    a.style = Some(if c % 2 == 0 { "display:none".to_string() } else { "height:0;overflow:hidden".to_string() });
+                    a.style = Some(match c % 4 {
+                        0 => "display:none".to_string(),
+                        1 => "height:0;overflow:hidden".to_string(),
+                        2 => "max-height:0;height:20px;overflow:hidden".to_string(),
+                        _ => "overflow:hidden;height:0;max-height:100px".to_string(),
+                    });
                 }
             });
             let mut styling = Styling::default();
